@@ -8,6 +8,7 @@ other outcome through Limits.v `run_mode` (C04_strict_raises_first, C04_is_valid
 documents is identical across modes and sources.  The validate command is run in a subprocess on files with
 0, 1, 255, 256, 257, 512 errors (C04_cli_zero_iff_valid)."""
 import io
+import re
 import json
 import os
 import subprocess
@@ -47,7 +48,7 @@ def sources(doc, path):
         wellformed = True
     except ET.ParseError:
         wellformed = False
-    if wellformed and '<t:q>' not in doc and 'xsi:type' not in doc:
+    if wellformed and re.search(r'<(t|unk):q[ >]', doc) is None and 'xsi:type' not in doc:
         out += [('ElementTree', lambda: ET.parse(path)), ('Element', lambda: ET.parse(path).getroot())]
     return out
 
